@@ -2,6 +2,7 @@ package lint
 
 import (
 	"fmt"
+	"go/ast"
 	"go/constant"
 	"go/token"
 	"go/types"
@@ -409,7 +410,6 @@ func (m *Model) ruleTIMER(r *Results) {
 	// the shared timer is stopped only by the store's shutdown routine: a handle that is merely
 	// closed must not stop the timer the other handles rely on
 	if sh := m.A.ShutdownFn; sh != nil {
-		extent := m.reachableLocal(sh)
 		ns := 0
 		for _, fn := range m.Funcs {
 			m.eachCall(fn, func(c ssa.CallInstruction) {
@@ -422,10 +422,18 @@ func (m *Model) ruleTIMER(r *Results) {
 				for stopFn.Parent() != nil {
 					stopFn = stopFn.Parent()
 				}
-				for _, cl := range m.staticCallersOf(stopFn) {
+				for _, cl := range m.hybridCallersOf(stopFn) {
 					ns++
-					caller := cl.Parent()
-					r.check(extent[caller] || caller == sh, rule, m.declName(caller)+" / timer stopped only at store shutdown", m.instrPos(cl), "the expiry timer is stopped from the shutdown routine", "the shared expiry timer is stopped from "+m.declName(caller)+", outside the store's shutdown routine: closing one handle (or another operation) silences expiry for every other handle of the bucket")
+					caller := cl.Site.Parent()
+					for caller.Parent() != nil {
+						caller = caller.Parent()
+					}
+					bad := m.escapesVia(caller, sh, map[*ssa.Function]bool{})
+					who := caller
+					if bad != nil {
+						who = bad
+					}
+					r.check(bad == nil, rule, m.declName(who)+" / timer stopped only at store shutdown", m.instrPos(cl.Site), "the expiry timer is stopped from the shutdown routine", "the shared expiry timer is stopped from "+m.declName(who)+", outside the store's shutdown routine: closing one handle (or another operation) silences expiry for every other handle of the bucket")
 				}
 			})
 		}
@@ -434,6 +442,49 @@ func (m *Model) ruleTIMER(r *Results) {
 		}
 	}
 	_ = token.ADD
+}
+
+// hybridCallersOf: the call edges (static, VTA-resolved, or lexical: a function value handed to a
+// higher-order helper) whose callee is fn.
+func (m *Model) hybridCallersOf(fn *ssa.Function) []callEdge {
+	var out []callEdge
+	for _, g := range m.Funcs {
+		if strings.HasSuffix(g.Name(), "$bound") {
+			continue
+		}
+		for _, e := range m.calleesOf(g) {
+			if e.Callee == fn {
+				out = append(out, e)
+			}
+		}
+	}
+	return out
+}
+
+// escapesVia: walking up the callers of f without passing through `through`, the first function
+// that is an entry point (exported, or without callers). nil if every chain passes through it.
+func (m *Model) escapesVia(f, through *ssa.Function, seen map[*ssa.Function]bool) *ssa.Function {
+	if f == through || seen[f] {
+		return nil
+	}
+	seen[f] = true
+	if ast.IsExported(f.Name()) {
+		return f
+	}
+	callers := m.hybridCallersOf(f)
+	if len(callers) == 0 {
+		return f
+	}
+	for _, cl := range callers {
+		g := cl.Site.Parent()
+		for g.Parent() != nil {
+			g = g.Parent()
+		}
+		if bad := m.escapesVia(g, through, seen); bad != nil {
+			return bad
+		}
+	}
+	return nil
 }
 
 func (m *Model) goVersionString() string {
@@ -677,6 +728,52 @@ func (m *Model) ruleERROVERWRITE(r *Results) {
 					}
 					if isNilConst(cd.Y) && (isLoad(cd.X) || stripConv(cd.X) == stripConv(st.Val)) || isNilConst(cd.X) && (isLoad(cd.Y) || stripConv(cd.Y) == stripConv(st.Val)) {
 						c.cutEdge(iff.Block(), eq)
+					}
+				}
+				// a sibling result of the same call that implies "no error": `x, retry, err := once()` where
+				// the callee returns retry == true only together with a nil error
+				if ex, ok := stripConv(st.Val).(*ssa.Extract); ok {
+					if call, ok := ex.Tuple.(*ssa.Call); ok {
+						if h := call.Common().StaticCallee(); h != nil && m.inPkg(h) && len(h.Blocks) > 0 {
+							for _, iff := range allIfs(fn) {
+								cd := condOf(iff)
+								if cd.Op != token.ILLEGAL || cd.X == nil {
+									continue
+								}
+								bv := stripConv(cd.X)
+								if ld, ok := bv.(*ssa.UnOp); ok && ld.Op == token.MUL {
+									// the bool was stored into a variable first
+									if al, ok := ld.X.(*ssa.Alloc); ok {
+										for _, s2 := range cellStores(al) {
+											if e2, ok := stripConv(s2.Val).(*ssa.Extract); ok && e2.Tuple == ssa.Value(call) {
+												bv = e2
+											}
+										}
+									}
+								}
+								bex, ok := bv.(*ssa.Extract)
+								if !ok || bex.Tuple != ssa.Value(call) || bex.Index == ex.Index {
+									continue
+								}
+								// does result[bex.Index] == true imply result[ex.Index] == nil in the callee?
+								implies := true
+								for _, ret := range returnsOf(h) {
+									if bex.Index >= len(ret.Results) || ex.Index >= len(ret.Results) {
+										implies = false
+										continue
+									}
+									if k, ok := stripConv(ret.Results[bex.Index]).(*ssa.Const); ok && k.Value != nil && !constant.BoolVal(k.Value) {
+										continue // returns false: says nothing
+									}
+									if !isNilConst(ret.Results[ex.Index]) {
+										implies = false
+									}
+								}
+								if implies {
+									c.cutEdge(iff.Block(), cd.succWhen(true))
+								}
+							}
+						}
 					}
 				}
 				// direct uses of the stored value also count
@@ -1397,6 +1494,10 @@ func (m *Model) openCleanupOnlyNew(r *Results, rule string, fn *ssa.Function) {
 			}
 			anyTrue = true
 			under := false
+			// `isNew = vers == 0`: the flag is assigned the comparison itself
+			if pol, exact := versPred(m.newTermEval().term(st.Val, st, m.closureFrame(st.Parent()))); pol == 1 && exact {
+				under = true
+			}
 			for _, ct2 := range controllingConds(st.Parent(), st.Block()) {
 				if versZeroTaken(ct2, st.Parent()) {
 					under = true
@@ -2121,6 +2222,25 @@ func (m *Model) ruleVIEWSTALE(r *Results) {
 					}
 				}
 			}
+		case *ssa.Parameter:
+			// handed down from callers that all pass the stale value
+			f := x.Parent()
+			idx := -1
+			for i, q := range f.Params {
+				if q == x {
+					idx = i
+				}
+			}
+			callers := m.staticCallersOf(f)
+			if idx < 0 || len(callers) == 0 {
+				return false
+			}
+			for _, cl := range callers {
+				if idx >= len(cl.Common().Args) || !fromStale(cl.Common().Args[idx], depth+1, seen) {
+					return false
+				}
+			}
+			return true
 		case *ssa.Call:
 			// a getter that hands the parameter's value back (not a classifier returning constants)
 			if callee := x.Common().StaticCallee(); callee != nil && m.inPkg(callee) && len(callee.Blocks) > 0 {
